@@ -3,7 +3,7 @@ import ast
 
 from ..core import AnalysisError
 from ..cfront import strip, text
-from .. import ckern, xlayer, pyxread
+from .. import cq, pq, cnorm, ckern, xlayer, pyxread
 from ..ceval import CEval, find_all, loop_parts, body_stmts, loop_var, stores_to
 from ..formula import Canon, Ratio, Undecided, show, num
 from ..pyfront import Mod, dotted, const_value
@@ -26,179 +26,287 @@ def run(rep):
     rep.rule("R14.b", "kernel step: 5-disjunct validity test, both ends clipped, exact trapezoid / prorated rainfall, mean or NaN stored, 64-bit period start")
     rep.rule("R14.c", "wrapper: origin = first whole hour after the first observation, NaN-filled output of nvalh periods, matching output index, error raises")
     K = ckern.analyze(rep.repo)
-    fn = K["fns"].get("c_var2h")
-    if fn is None:
+    if K["fns"].get("c_var2h") is None:
         raise AnalysisError("data/c_var2h.c: c_var2h not found")
+    raw = K["fns"]["c_var2h"]
+    fn = ckern.normalised(K, "c_var2h", rep.repo)
     file = fn["file"]
-    outer = [s for s in fn["body"]["inner"] if s.get("kind") == "ForStmt"]
+    top = body_stmts(fn["body"])
+    outer = [s for s in top if s.get("kind") == "ForStmt" and "hvalues" in cnorm.writes(s)[1]]
     if len(outer) != 1:
         raise AnalysisError(f"{file}: period loop not found")
     outer = outer[0]
-    iv = loop_var(outer)
+    olr = cq.loop_range(outer, cq.preceding(top, outer))
+    iv = olr["var"] if olr else loop_var(outer)
     ostm = body_stmts(loop_parts(outer)[3])
-    wl = [s for s in ostm if s.get("kind") == "WhileStmt"]
+    wl = [s for s in ostm if s.get("kind") in ("WhileStmt", "ForStmt") and find_all(s, lambda n: n.get("kind") == "CompoundAssignOperator" and n.get("opcode") == "+=")]
     if len(wl) != 1:
         raise AnalysisError(f"{file}: integration loop not found")
     wl = wl[0]
-    rep.unit(f"{file}: c_var2h (period loop, integration loop); data/dutils.py: var2h")
-    # period bounds
-    pre = [s for s in ostm[:ostm.index(wl)] if s.get("kind") == "BinaryOperator"]
-    pce = CEval()
-    penv = {"nbsec_per_period_d": ('sym', 'P')}
-    pce._walk(pre, penv, [])
-    cn = Canon()
-    okst = "start" in penv and cn.ratio(penv["start"]) == cn.ratio(('add', ('sym', 'hstartsec'), ('mul', ('sym', iv), ('sym', 'nbsec_per_period'))))
-    oken = "end" in penv and cn.ratio(penv["end"]) == cn.ratio(('add', penv.get("start", num(0)), ('sym', 'P')))
-    rep.check(okst and oken, "R14.b", file, "c_var2h", "period i = [hstartsec + i*nbsec, + nbsec)", f"start={show(penv.get('start', num(0)))}", line=outer.get("_line"))
-    prod = find_all(outer, lambda n: n.get("kind") == "BinaryOperator" and n.get("opcode") == "*" and "nbsec_per_period" in text(n) and text(n).replace(" ", "").replace("(longlong)", "") == f"{iv}*nbsec_per_period")
-    rep.check(bool(prod) and all(p["type"]["qualType"] in ("long long", "long") for p in prod), "R14.b", file, "c_var2h", "period start computed in 64-bit (i*nbsec overflows int after ~68 years of hourly data)",
-              f"product type {prod[0]['type']['qualType'] if prod else None}", line=outer.get("_line"))
-    rep.check(penv.get("hvalue") == num(0) and penv.get("miss") == num(0), "R14.b", file, "c_var2h", "integral and invalid flag reset for every period", "", line=outer.get("_line"))
-    # integration step
-    wstm = body_stmts(loop_parts(wl)[3])
-    wcond = text(loop_parts(wl)[1]).replace(" ", "")
-    rep.check(wcond == "t1<end", "R14.b", file, "c_var2h", "intervals starting before the period end are visited", wcond, line=wl.get("_line"))
-    # validity test
-    vt = [s for s in wstm if s.get("kind") == "IfStmt" and stores_missing(s)]
-    okv, det = False, "validity test not found"
-    if vt:
-        c = CEval().ex(vt[0]["inner"][0], {"val1": ('sym', 'v1'), "val2": ('sym', 'v2'), "t1": ('sym', 't1'), "t2": ('sym', 't2')})
-        disj = flatten_or(c)
-        norm = set()
-        for d in disj:
-            if d[0] == 'cmp' and d[1] == '<' and d[2] in (('sym', 'v1'), ('sym', 'v2')):
-                r = Canon().ratio(d[3])
-                norm.add(("neg", d[2][1]) if r.is_const() and -1e-6 <= float(r.cval()) <= 0 else ("?", show(d)))
-            elif d[0] == 'cmp' and d[1] == '>' and Canon().ratio(d[2]) == Canon().ratio(('sub', ('sym', 't2'), ('sym', 't1'))) and d[3] == ('sym', 'maxgapsec'):
-                norm.add(("gap",))
-            elif d[0] == 'call' and d[1] == 'isnan' and d[2][0] in (('sym', 'v1'), ('sym', 'v2')):
-                norm.add(("nan", d[2][0][1]))
-            else:
-                norm.add(("?", show(d)))
-        want = {("neg", "v1"), ("neg", "v2"), ("gap",), ("nan", "v1"), ("nan", "v2")}
-        okv = norm == want
-        det = f"missing: {sorted(want - norm)}, unexpected: {sorted(norm - want)}"
-    rep.check(okv, "R14.b", file, "c_var2h", "interval invalid iff an end value is negative or missing or the interval is longer than maxgapsec", det, line=vt[0].get("_line") if vt else wl.get("_line"))
-    # contribution for both modes
-    for rain in (True, False):
-        def oracle(c, rain=rain):
+    rep.unit(f"{file}: c_var2h (normalised: period loop, integration loop); data/dutils.py: var2h")
+    START = f"(hstartsec + {iv}*nbsec_per_period)"
+    END = f"({START} + nbsec_per_period)"
+    T2, V2 = "varsec[varindex+1]", "varvalues[varindex+1]"
+    # state before the integration loop
+    pre = cq.evaluate([s for s in ostm[:ostm.index(wl)] if s.get("kind") != "IfStmt"])
+    penv = pre.finals[-1][0] if pre.finals else {}
+    # roles of the scalar state: the running integral is the += target, the flag is the scalar set to 1 by the validity test
+    wparts = loop_parts(wl)
+    wstm = body_stmts(wparts[3])
+    accs = {text(n["inner"][0]) for n in find_all(wl, lambda n: n.get("kind") == "CompoundAssignOperator" and n.get("opcode") == "+=" and strip(n["inner"][0]).get("kind") == "DeclRefExpr")}
+    if len(accs) != 1:
+        raise AnalysisError(f"{file}: running integral of the integration loop not recognised ({sorted(accs)})")
+    HV = accs.pop()
+    # left end of the current interval: the two scalars initialised from varsec[varindex] / varvalues[varindex]
+    T1 = [k_ for k_, v in penv.items() if "[" not in k_ and cq.same_expr(v, "varsec[varindex]")]
+    V1 = [k_ for k_, v in penv.items() if "[" not in k_ and cq.same_expr(v, "varvalues[varindex]")]
+    rep.check(len(T1) == 1 and len(V1) == 1 and HV in penv and cq.same_expr(penv[HV], "0"), "R14.b", file, "c_var2h",
+              "each period starts from the current observation with a zero integral", f"left end {T1}, {V1}", line=outer.get("_line"))
+    if len(T1) != 1 or len(V1) != 1:
+        return EXPLANATION
+    T1, V1 = T1[0], V1[0]
+    okcond = any(cq.same_cond(c_, f"{T1} < {END}", False) for c_ in cq._conj(wparts[1]))
+    rep.check(okcond, "R14.b", file, "c_var2h", "intervals starting before the period end are visited (period i = [hstartsec + i*nbsec, + nbsec))", text(wparts[1])[:120], line=wl.get("_line"))
+    prod = find_all(raw["body"], lambda n: n.get("kind") == "BinaryOperator" and n.get("opcode") == "*" and
+                    {text(strip(x)).replace(" ", "").replace("(longlong)", "") for x in n["inner"]} == {iv, "nbsec_per_period"})
+    rep.check(bool(prod) and all(p_["type"]["qualType"] in ("long long", "long") for p_ in prod), "R14.b", file, "c_var2h",
+              "period start computed in 64-bit (i*nbsec overflows int after ~68 years of hourly data)", f"product type {prod[0]['type']['qualType'] if prod else None}", line=outer.get("_line"))
+    # the flag: a scalar that the body sets to the constant 1 (and the prologue to 0)
+    flags = {text(n["inner"][0]) for n in find_all(wl, lambda n: n.get("kind") == "BinaryOperator" and n.get("opcode") == "=" and strip(n["inner"][0]).get("kind") == "DeclRefExpr"
+                                                and cq.same_expr(n["inner"][1], "1"))}
+    flags = {f_ for f_ in flags if f_ in penv and cq.same_expr(penv[f_], "0")}
+    if len(flags) != 1:
+        raise AnalysisError(f"{file}: invalid-interval flag not recognised ({sorted(flags)})")
+    MISS = flags.pop()
+
+    EPSOK = lambda e: (lambda r: r.is_const() and -1e-6 <= float(r.cval()) <= 0)(Canon().ratio(e))
+
+    def classify(c):
+        """atomic double comparison -> (predicate name, polarity) among NEG1, NEG2, GAP, or None"""
+        if c[0] != 'cmp':
+            return None
+        op, a, b = c[1], c[2], c[3]
+        if op in ('>', '>='):
+            a, b, op = b, a, {'>': '<', '>=': '<='}[op]
+        # now a < b or a <= b
+        for nm, var in (("NEG1", V1), ("NEG2", V2)):
+            if cq.same_expr(a, var) and op == '<' and _const(b) and EPSOK(b):
+                return nm, True
+            if cq.same_expr(b, var) and op == '<=' and _const(a) and EPSOK(a):
+                return nm, False          # c <= v : "not negative" (for a non-NaN v)
+        if op == '<' and cq.same_expr(a, "maxgapsec") and cq.same_expr(b, f"{T2} - {T1}"):
+            return "GAP", True
+        if op == '<=' and cq.same_expr(b, "maxgapsec") and cq.same_expr(a, f"{T2} - {T1}"):
+            return "GAP", False
+        return None
+
+    def _const(e):
+        try:
+            return Canon().ratio(e).is_const()
+        except Undecided:
+            return False
+
+    def mk_oracle(P, A=None, B=None, R=None, pos=True):
+        def oracle(c):
+            if c[0] in ('and', 'or', 'not'):
+                from .c03 import _bool
+                return _bool(c, oracle)
+            if c[0] == 'call' and c[1] == 'isnan':
+                if cq.same_expr(c[2][0], V1):
+                    return P["NAN1"]
+                if cq.same_expr(c[2][0], V2):
+                    return P["NAN2"]
+                return None
+            if c[0] != 'cmp':
+                return None
+            if c[1] in ('!=', '==') and show(c[2]) == show(c[3]):
+                r = oracle(('call', 'isnan', (c[2],)))
+                return None if r is None else (r if c[1] == '!=' else not r)
+            k_ = classify(c)
+            if k_ is not None:
+                nm, pol = k_
+                nan = P["NAN1"] if nm == "NEG1" else P["NAN2"] if nm == "NEG2" else False
+                if nan:
+                    return False            # every ordering with NaN is false
+                return P[nm] if pol else not P[nm]
             s_ = show(c)
-            if c[0] == 'cmp' and show(c[2]) == "rainfall":
-                return rain if c[1] == "==" else None
-            if c[0] == 'cmp' and c[1] == '>' and "IT2" in s_ and "IT1" in s_:
-                return True          # the clipped interval has positive length
-            if c[0] in ('or',):
-                return False         # validity test (handled above)
-            if c[0] == 'cmp' and ("nvalvar" in s_):
+            if cq.same_cond(c, f"{T1} < {START}", False) or cq.same_cond(c, f"{START} > {T1}", False):
+                return A
+            if cq.same_cond(c, f"{T1} >= {START}", False):
+                return None if A is None else not A
+            if cq.same_cond(c, f"{T2} > {END}", False):
+                return B
+            if cq.same_cond(c, f"{T2} <= {END}", False):
+                return None if B is None else not B
+            if cq.same_cond(c, "rainfall == 1", True):
+                return R
+            if cq.same_cond(c, "rainfall != 1", True) or cq.same_cond(c, "rainfall == 0", True):
+                return None if R is None else not R
+            if cq.same_cond(c, f"{T2} < {T1}", False):
                 return False
-            if c[0] == 'cmp' and show(c[2]) == "t2" and show(c[3]) == "t1" and c[1] == "<":
+            if "nvalvar" in s_:
+                return False               # not at the end of the data
+            if "display" in s_:
+                return False
+            if c[1] == '>' and _const(c[3]) and "IT" not in s_ and pos is not None:
+                # clipped length > eps
+                return pos
+            return None
+        return oracle
+    # ---- validity: flag set iff one of the five predicates holds
+    import itertools
+    badv, nv = [], 0
+    for NEG1, NEG2, GAP, NAN1, NAN2 in itertools.product([False, True], repeat=5):
+        if (NEG1 and NAN1) or (NEG2 and NAN2):
+            continue
+        nv += 1
+        P = {"NEG1": NEG1, "NEG2": NEG2, "GAP": GAP, "NAN1": NAN1, "NAN2": NAN2}
+        ce = CEval(mk_oracle(P, A=False, B=False, R=True))
+        ce.summarise_loops = True
+        try:
+            ce.run(wstm, {MISS: ('sym', 'M0')})
+        except Undecided as ex:
+            rep.undecided("R14.b", file, "c_var2h", f"validity test {P}", str(ex), line=wl.get("_line"))
+            continue
+        ends = [f_ for f_ in ce.finals if f_[2] == "end"]
+        und = [f_ for f_ in ends if f_[1]]
+        if und or not ends:
+            badv.append(f"{P}: undecided test {show(und[0][1][0][0])[:80] if und else 'no path'}")
+            continue
+        want = any(P.values())
+        got = ends[-1][0].get(MISS)
+        ok = (cq.same_expr(got, "1") if want else cq.same_expr(got, "M0")) if got is not None else False
+        if not ok:
+            badv.append(f"{ {k_ for k_, v in P.items() if v} or '{}' }: flag {show(got) if got else None}, expected {'1' if want else 'unchanged'}")
+    rep.check(not badv, "R14.b", file, "c_var2h", f"interval invalid iff an end value is negative (beyond a tolerance in [-1e-6, 0]) or missing or the interval is longer than maxgapsec ({nv} predicate assignments)",
+              " | ".join(badv[:3]), line=wl.get("_line"))
+    rep.floor("validity assignments", nv, 18)
+    # ---- contribution: both modes x position of the interval ends relative to the period
+    P0 = {"NEG1": False, "NEG2": False, "GAP": False, "NAN1": False, "NAN2": False}
+    cnt = 0
+    for R in (True, False):
+        bad = []
+        for A, B in itertools.product([True, False], repeat=2):
+            ce = CEval(mk_oracle(P0, A=A, B=B, R=R))
+            ce.summarise_loops = True
+            try:
+                ce.run(wstm, {HV: ('sym', 'H0')})
+            except Undecided as ex:
+                bad.append(str(ex))
+                continue
+            ends = [f_ for f_ in ce.finals if f_[2] == "end"]
+            if not ends or any(f_[1] for f_ in ends):
+                bad.append("undecided test " + (show(ends[0][1][0][0])[:80] if ends and ends[0][1] else "no path"))
+                continue
+            cnt += 1
+            IT1 = START if A else T1
+            IT2 = END if B else T2
+            if R:
+                want = f"H0 + {V2}*({IT2} - {IT1})/({T2} - {T1})*nbsec_per_period"
+            else:
+                sl = f"(({V2} - {V1})/({T2} - {T1}))"
+                want = f"H0 + (({sl}*({IT1} - {T1}) + {V1}) + ({sl}*({IT2} - {T1}) + {V1}))*({IT2} - {IT1})/2"
+            got = ends[-1][0].get(HV)
+            if got is None or not cq.same_expr(got, want):
+                bad.append(f"left end {'clipped' if A else 'inside'}, right end {'clipped' if B else 'inside'}: integral becomes {show(got)[:140] if got else None}")
+        lab = "rainfall: increment prorated by the clipped share of its interval (x period length, divided out at the end)" if R else \
+            "interpolation: exact trapezoid of the linear interpolant between the clipped ends"
+        rep.check(not bad, "R14.b", file, "c_var2h", lab + "; ends clipped to max(t1, start), min(t2, end)", " | ".join(bad[:2]), line=wl.get("_line"))
+    rep.floor("contribution cases", cnt, 8)
+    # ---- advance
+    ce = CEval(mk_oracle(P0, A=False, B=False, R=True))
+    ce.summarise_loops = True
+    ce.run(wstm, {"varindex": ('sym', 'VI0')})
+    ends = [f_ for f_ in ce.finals if f_[2] == "end"]
+    okadv = bool(ends) and all(cq.same_expr(f_[0].get(T1, num(0)), "varsec[VI0+1]") and cq.same_expr(f_[0].get(V1, num(0)), "varvalues[VI0+1]") and
+                               cq.same_expr(f_[0].get("varindex", num(0)), "VI0+1") for f_ in ends)
+    rep.check(okadv, "R14.b", file, "c_var2h", "intervals are consecutive observation pairs: (t1, val1) <- (t2, val2), index advanced by one", "", line=wl.get("_line"))
+    wce = cq.evaluate(wstm)
+    errs = [r for r in wce.returns if isinstance(r[0], tuple) and not cq.same_expr(r[0], "0") and cq.holds(r[1], f"{T2} < {T1}", False)]
+    rep.check(bool(errs), "R14.b", file, "c_var2h", "decreasing time stamps are an error", "", line=wl.get("_line"))
+    # ---- store after the loop
+    post = ostm[ostm.index(wl) + 1:]
+    okp = True
+    seen = 0
+    for valid in (True, False):
+        def oracle(c, valid=valid):
+            if cq.same_cond(c, f"{MISS} == 0", True):
+                return valid
+            if cq.same_cond(c, f"{MISS} != 0", True) or cq.same_cond(c, f"{MISS} == 1", True) or cq.same_cond(c, f"{MISS} > 0", True):
+                return not valid
+            if "varindex" in show(c):
                 return False
             return None
-        ce = CEval(oracle, {"varsec": lambda idx: ('sym', 't2'), "varvalues": lambda idx: ('sym', 'v2')})
-        env = {"t1": ('sym', 't1'), "val1": ('sym', 'v1'), "hvalue": ('sym', 'H0'), "nbsec_per_period_d": ('sym', 'P'), "start": ('sym', 'start'), "end": ('sym', 'end')}
-        try:
-            # clip expressions stay symbolic: it1, it2 are `where` terms; abstract them
-            stm2 = []
-            clips = {}
-            for s in wstm:
-                if s.get("kind") == "BinaryOperator" and s.get("opcode") == "=" and text(s["inner"][0]) in ("it1", "it2"):
-                    clips[text(s["inner"][0])] = text(s["inner"][1]).replace(" ", "")
-                    continue
-                stm2.append(s)
-            env.update({"it1": ('sym', 'IT1'), "it2": ('sym', 'IT2')})
-            ce._walk(stm2, env, [])
-        except Undecided as ex:
-            rep.undecided("R14.b", file, "c_var2h", f"integration step ({'rainfall' if rain else 'interpolation'})", str(ex), line=wl.get("_line"))
-            continue
-        c2 = Canon()
-        inc = c2.ratio(('sub', env["hvalue"], ('sym', 'H0')))
-        T1, T2, V1, V2, A, B = (Ratio.sym(x) for x in ("t1", "t2", "v1", "v2", "IT1", "IT2"))
-        if rain:
-            want = V2 * (B - A) / (T2 - T1) * Ratio.sym("P")
-            lab = "rainfall: increment prorated by the clipped share of its interval (x period length, divided out at the end)"
-        else:
-            sl = (V2 - V1) / (T2 - T1)
-            fa = sl * (A - T1) + V1
-            fb = sl * (B - T1) + V1
-            want = (fa + fb) * (B - A) / 2
-            lab = "interpolation: exact trapezoid of the linear interpolant between the clipped ends"
-        rep.check(inc == want, "R14.b", file, "c_var2h", lab, f"adds {inc}", line=wl.get("_line"))
-        if not rain:
-            rep.check(clips.get("it1") == "t1<start?start:t1" and clips.get("it2") == "t2>end?end:t2", "R14.b", file, "c_var2h",
-                      "both ends clipped to the period: it1 = max(t1, start), it2 = min(t2, end)", str(clips), line=wl.get("_line"))
-    # advance and store
-    adv = {text(s["inner"][0]): text(s["inner"][1]).replace(" ", "") for s in wstm if s.get("kind") == "BinaryOperator" and s.get("opcode") == "="}
-    rep.check(adv.get("t1") == "t2" and adv.get("val1") == "val2" and adv.get("t2") == "(double)varsec[varindex+1]" and adv.get("val2") == "varvalues[varindex+1]", "R14.b", file, "c_var2h",
-              "intervals are consecutive observation pairs (t1,val1) -> (t2,val2)", str({k: adv.get(k) for k in ('t1', 'val1', 't2', 'val2')}), line=wl.get("_line"))
-    post = [s for s in ostm[ostm.index(wl) + 1:] if stores_to(s, "hvalues")]
-    okp = bool(post) and text(post[-1]["inner"][1]).replace(" ", "") in ("miss==0?hvalue/nbsec_per_period_d:nan",)
-    rep.check(okp, "R14.b", file, "c_var2h", "stored value = integral / period length, NaN when an overlapping interval was invalid", text(post[-1]["inner"][1]) if post else "", line=outer.get("_line"))
-    ts = [s for s in wstm if s.get("kind") == "IfStmt" and text(s["inner"][0]).replace(" ", "") == "t2<t1" and find_all(s, lambda n: n.get("kind") == "ReturnStmt")]
-    rep.check(bool(ts), "R14.b", file, "c_var2h", "decreasing time stamps are an error", "", line=wl.get("_line"))
+        ce = CEval(oracle)
+        ce.summarise_loops = True
+        ce.run(post, {})
+        fin = [f_ for f_ in ce.finals if f_[2] == "end" and not f_[1]]
+        key = f"hvalues[{iv}]"
+        for f_ in fin:
+            seen += 1
+            got = f_[0].get(key)
+            if valid:
+                okp = okp and got is not None and cq.same_expr(got, f"{HV}/nbsec_per_period")
+            else:
+                okp = okp and (got == ('nan',) or (got is None and _nan_before(pre, iv)))
+    rep.check(okp and seen >= 2, "R14.b", file, "c_var2h", "stored value = integral / period length, NaN when an overlapping interval was invalid", "", line=outer.get("_line"))
 
     # ---------------- wrapper ---------------------------------------------------------------------------------------------------------
-    mod = Mod(rep.repo, "data/dutils.py")
-    f = mod.func("var2h")
-    asg = {}
-    for n in ast.walk(f):
-        if isinstance(n, ast.Assign) and isinstance(n.targets[0], ast.Name):
-            asg.setdefault(n.targets[0].id, []).append(n)
-    vs = asg.get("varsec", [None])[0]
-    ok, det = False, "varsec not assigned"
-    if vs is not None:
-        txt = ast.unparse(vs.value).replace(" ", "")
-        det = txt
-        # accepted pins: astype("datetime64[s]") before the integer conversion / as_unit / division by a timedelta64
-        pinned = any(p in txt for p in ('astype("datetime64[s]")', "astype('datetime64[s]')", 'as_unit("s")', "as_unit('s')", "np.timedelta64(1,'s')", 'np.timedelta64(1,"s")'))
-        scaled = any(isinstance(n, ast.BinOp) and isinstance(n.op, (ast.Div, ast.FloorDiv)) and isinstance(n.right, ast.Constant) and isinstance(n.right.value, (int, float)) and n.right.value >= 1000
-                     for n in ast.walk(vs.value))
-        ok = pinned and not scaled
-    rep.check(ok, "R14.a", "data/dutils.py", "var2h", "time stamps converted to seconds through an explicit unit pin (datetime64[s])",
-              f"`{det}`: an integer view of the index divided by a constant depends on the storage resolution (ns / us / s) of the index", line=vs.lineno if vs is not None else f.lineno)
-    tm = asg.get("time", [None])[0]
-    okz = tm is not None and ast.unparse(tm.value).replace(" ", "") in ("se.index.tz_localize(None).values",)
-    rep.check(okz, "R14.a", "data/dutils.py", "var2h", "zone dropped with tz_localize(None): wall-clock stamps, like the origin built from the wall-clock fields of the first stamp",
-              ast.unparse(tm.value) if tm is not None else "", line=tm.lineno if tm is not None else f.lineno)
-    hs = asg.get("hstart", [None])[0]
-    okh = hs is not None and ast.unparse(hs.value).replace(" ", "") == "datetime(start.year,start.month,start.day,start.hour)+delta(hours=1)"
-    st = asg.get("start", [None])[0]
-    okh = okh and st is not None and ast.unparse(st.value).replace(" ", "") == "se.index[0]"
-    rep.check(okh, "R14.c", "data/dutils.py", "var2h", "origin = first whole hour after the first observation", ast.unparse(hs.value) if hs is not None else "", line=f.lineno)
-    hsec = asg.get("hstartsec", [None])[0]
-    ref = asg.get("ref", [None])[0]
-    okr = hsec is not None and ast.unparse(hsec.value).replace(" ", "") == "np.int64((hstart-ref).total_seconds())" and ref is not None and \
-        ast.unparse(ref.value).replace(" ", "") == "datetime(1970,1,1)"
-    rep.check(okr, "R14.c", "data/dutils.py", "var2h", "origin in seconds since 1970-01-01 (same epoch as the stamps)", "", line=f.lineno)
-    nv = asg.get("nvalh", [None])[0]
-    okn = nv is not None and ast.unparse(nv.value).replace(" ", "") == "np.int32((end-start).total_seconds()/nbsec_per_period)"
-    hv = asg.get("hvalues", [None])
-    okf = hv and ast.unparse(hv[0].value).replace(" ", "") in ("np.nan*np.ones(nvalh,dtype=np.float64)", "np.full(nvalh,np.nan)")
-    rep.check(okn and okf, "R14.c", "data/dutils.py", "var2h", "output of nvalh = (end - start)/period values, NaN-filled", "", line=f.lineno)
-    dt = asg.get("dt", [None])[0]
-    okd = dt is not None and isinstance(dt.value, ast.Call) and dotted(dt.value.func) == "pd.date_range" and ast.unparse(dt.value.args[0]) == "hstart" and \
-        {k.arg: ast.unparse(k.value) for k in dt.value.keywords} == {"freq": "freq", "periods": "nvalh"}
-    fq = asg.get("freq", [None])[0]
-    okq = fq is not None and ast.unparse(fq.value).replace(" ", "").replace("'", '"') in ('"h"ifnbsec_per_period==3600else"30min"', '"H"ifnbsec_per_period==3600else"30min"')
-    rep.check(okd and okq, "R14.c", "data/dutils.py", "var2h", "returned index starts at the origin with the period as frequency and nvalh periods", "", line=f.lineno)
     P = pyxread.load_all(rep.repo)
     shims = {cm: {sh.name: sh for sh in d["shims"]} for cm, d in P.items()}
     sites, _ = xlayer.find_sites(rep.repo, shims)
-    s = [x for x in sites if x.shim.name == "var2h"]
-    if len(s) != 1:
+    st = [x for x in sites if x.shim.name == "var2h"]
+    if len(st) != 1:
         raise AnalysisError("data/dutils.py: call site of var2h not found")
-    ok, how, _ = xlayer.error_discipline(s[0])
-    rep.check(ok, "R14.c", "data/dutils.py", "var2h", "kernel error code raises", how, line=s[0].call.lineno)
-    names = {pn: ast.unparse(v[0]) for pn, v in s[0].args.items()}
-    rep.check(all(names.get(k) == k for k in ("maxgapsec", "hstartsec", "nbsec_per_period", "rainfall", "display", "varsec", "varvalues", "hvalues")), "R14.c", "data/dutils.py", "var2h",
-              "arguments bound to the same-named shim parameters", str(names), line=s[0].call.lineno)
+    st = st[0]
+    f = st.func
+    ok, how, _ = xlayer.error_discipline(st)
+    rep.check(ok, "R14.c", "data/dutils.py", "var2h", "kernel error code raises", how, line=st.call.lineno)
+    pa = pq.call_arguments(f, st.call, list(st.shim.params))
+    vs = pa.get("varsec")
+    STAMPS = "se.index.tz_localize(None).values"
+    pins = [f'({STAMPS}).astype("datetime64[s]").astype(np.int64)', f'({STAMPS}).astype("datetime64[s]").astype("int64")',
+            f'({STAMPS}).astype("datetime64[s]").astype(int)', f'(({STAMPS}) - np.datetime64("1970-01-01T00:00:00")) // np.timedelta64(1, "s")',
+            f'(({STAMPS}) - np.datetime64("1970-01-01")) // np.timedelta64(1, "s")', f'(({STAMPS}).astype("datetime64[s]").view(np.int64))']
+    okpin = vs is not None and any(pq.same(vs, p_) for p_ in pins)
+    rep.check(okpin, "R14.a", "data/dutils.py", "var2h", "time stamps converted to seconds through an explicit unit pin (datetime64[s])",
+              f"`{show(vs)[:140] if vs else None}`: an integer view of the index divided by a constant depends on the storage resolution (ns / us / s) of the index", line=st.call.lineno)
+    okz = vs is not None and pq.mentions(vs, lambda e: pq.call_named(e, ".tz_localize") and pq.same(e[2][1] if len(e[2]) > 1 else num(0), "None")) and \
+        not pq.mentions(vs, lambda e: pq.call_named(e, ".tz_convert"))
+    rep.check(okz, "R14.a", "data/dutils.py", "var2h", "zone dropped with tz_localize(None): wall-clock stamps, like the origin built from the wall-clock fields of the first stamp",
+              "", line=st.call.lineno)
+    S0 = "se.index[0]"
+    HSTART = f"datetime(({S0}).year, ({S0}).month, ({S0}).day, ({S0}).hour) + delta(hours=1)"
+    hsec = pa.get("hstartsec")
+    okh = hsec is not None and pq.same(hsec, f"(({HSTART}) - datetime(1970, 1, 1)).total_seconds()")
+    rep.check(okh, "R14.c", "data/dutils.py", "var2h", "origin = first whole hour after the first observation, in seconds since 1970-01-01 (same epoch as the stamps)",
+              show(hsec)[:160] if hsec else "", line=f.lineno)
+    hv = st.args.get("hvalues")
+    NVALH = f"((se.index[-1] - {S0}).total_seconds()/nbsec_per_period)"
+    hva = pa.get("hvalues")
+    okf = hva is not None and (pq.same(hva, f"np.nan*np.ones({NVALH}, dtype=np.float64)") or pq.same(hva, f"np.full({NVALH}, np.nan, dtype=np.float64)") or
+                               pq.same(hva, f"np.full({NVALH}, np.nan)"))
+    rep.check(okf, "R14.c", "data/dutils.py", "var2h", "output of nvalh = (end - start)/period values, NaN-filled", show(hva)[:160] if hva else "", line=f.lineno)
+    paths, _b = pq.site_paths(st)
+    rets = [p_ for p_ in paths if p_.how == "return"]
+    okd = bool(rets)
+    for p_ in rets:
+        v = p_.value
+        okd = okd and pq.call_named(v, ".Series") and len(v[2]) >= 2 and v[2][1] == ('sym', 'K.hvalues')
+        idx = pq.kw_of(v, "index") if okd else None
+        okd = okd and idx is not None and pq.call_named(idx, ".date_range") and len(idx[2]) >= 2 and pq.same(idx[2][1], HSTART) and \
+            pq.kw_of(idx, "periods") is not None and pq.same(pq.kw_of(idx, "periods"), NVALH)
+        fq = pq.kw_of(idx, "freq") if okd else None
+        okd = okd and fq is not None and all((pq.same(x, "'h'") or pq.same(x, "'H'") or pq.same(x, "'60min'")) if any(t and pq.same(c, "nbsec_per_period == 3600") for c, t in list(cn_) + list(p_.conds))
+                                             else pq.same(x, "'30min'") for cn_, x in pq.split_where(fq))
+    rep.check(okd, "R14.c", "data/dutils.py", "var2h", "returned index starts at the origin with the period as frequency and nvalh periods", "", line=f.lineno)
+    names = {pn: show(v)[:30] for pn, v in pa.items()}
+    okb = all(pn in pa and pq.mentions(pa[pn], lambda e, pn=pn: e == ('sym', pn)) for pn in ("maxgapsec", "nbsec_per_period", "rainfall", "display"))
+    okb = okb and "varvalues" in pa and pq.mentions(pa["varvalues"], lambda e: pq.call_named(e, "attr:values") and e[2][0] == ('sym', 'se'))
+    rep.check(okb, "R14.c", "data/dutils.py", "var2h", "options and series values bound to the kernel parameters of the same meaning", str(names)[:300], line=st.call.lineno)
     return EXPLANATION
 
 
-def stores_missing(s):
-    return bool(find_all(s, lambda n: n.get("kind") == "BinaryOperator" and n.get("opcode") == "=" and text(n["inner"][0]) == "miss"))
-
-
-def flatten_or(c):
-    if c[0] == 'or':
-        return flatten_or(c[1]) + flatten_or(c[2])
-    return [c]
+def _nan_before(pre, iv):
+    """the output of the period was set to NaN before the integration loop (so that leaving it untouched means NaN)"""
+    return any(e.arr == "hvalues" and e.val == ('nan',) and cq.same_expr(e.idx, iv) for e in pre.effects)
